@@ -59,7 +59,7 @@ def main():
 One directory per change: `patch.diff` (apply to a worktree of /repo, never to /repo itself), `demo.py` (the author's demonstration:
 exits 0 on the unchanged code, non-zero with the patch), `meta.json` (author's description + the confirmation record of
 `tools/seedtest.py`: demo and test-suite results, VIOLATION lines, obligations that broke). `neutral_*` are behaviour-preserving
-rewrites that must NOT alarm. Rounds: m1-m2 = round 1, m3-m4 = round 2, m5-m6 = round 3, m7-m8 = round 4, m9-m10 = round 5. Results
+rewrites that must NOT alarm. Rounds: m1-m2 = round 1, m3-m4 = round 2, m5-m6 = round 3, m7-m8 = round 4, m9-m10 = round 5, m11-m12 = round 6. Results
 below are those of the last full pass (`tools/seeded_all.sh`); regenerate with `python3 tools/mkseedindex.py`.
 
 Totals: %(n)d changes, %(det)d detected, %(inp)d with a concrete failing input, %(oracle_only)d found by a direct oracle alone.
